@@ -9,6 +9,7 @@ pub const OPS: &[&str] = &[
     "get_res0_cells", "is_first_child", "get_stride", "get_num_cells", "get_num_children", "uncompact",
     "compact_cover", "compact_max", "compact_total", "uncompact_total", "order", "order_children", "reference", "purity", "curve_roundtrip", "hex", "hex_parse",
     "lonlat_to_cell", "cell_to_lonlat", "cell_to_boundary", "cell_area",
+    "frame", "nearest_face", "boundary_geometry", "cell_area_measured", "reference_geo",
 ];
 
 pub struct Rng(u64);
@@ -70,6 +71,9 @@ fn from_cell(c: Cell) -> A5Cell {
 const MAX_FANOUT: u128 = 65536; // 4^8, the scope bound of C07/C09/C14
 
 pub fn run_op(op: &str, a: &[String]) -> Result<(), String> {
+    if let Some(r) = crate::geo::run_geo(op, a) {
+        return r;
+    }
     match op {
         "get_resolution" => {
             let x = pu64(&a[0]);
@@ -820,6 +824,9 @@ fn shuffle<T>(v: &mut Vec<T>, rng: &mut Rng) {
 }
 
 pub fn generate(op: &str, rng: &mut Rng, budget: u64, f: &mut dyn FnMut(Vec<String>) -> bool) {
+    if crate::geo::generate_geo(op, rng, budget, f) {
+        return;
+    }
     match op {
         "get_resolution" | "deserialize" | "is_first_child" | "get_stride" | "hex" | "cell_to_lonlat" => {
             interesting_ids(rng, budget, &mut |x| f(vec![hx(x)]));
